@@ -8,6 +8,8 @@ from ..monitors import EscapeMonitor, DeliveryMonitor, WireMonitor
 from ..evidence import graph_evidence
 from .c01 import hexn, DEVS
 
+from .c14 import run_adaptive  # noqa: F401
+
 PROP = 'C04'
 
 
@@ -44,6 +46,10 @@ def scenarios(tier):
                      seg_mru={'A': 2, 'B': 4}, weight=40))
     out.append(_scen('len0+len1', {'A': [('send', ''), s1], 'B': []}, dev_bound=0, weight=5))
     out.append(_scen('termA|termB-d1', {'A': [term], 'B': [term]}, dev_bound=1, weight=10))
+    # adaptive segment sizing (shared with C14): every assignment of fast/slow acknowledgement
+    # delays, peer MRUs above and below the controller's floor; all wire rules of this property apply
+    out.append(dict(name='adaptive-sizing', kind='enum', runner='run_adaptive',
+                    params=dict(name='adaptive-sizing', prop=PROP, thorough=(tier == 'thorough')), weight=20))
     if tier == 'thorough':
         out.append(_scen('A5+A1+termA-d1', {'A': [s5, s1, term], 'B': []}, dev_bound=1, weight=90))
         out.append(_scen('A6|B3+termB', {'A': [s6], 'B': [s3, term]}, dev_bound=0, weight=100))
@@ -62,7 +68,7 @@ ASSUMPTIONS = [
     'TCP modelled as a reliable FIFO byte pipe with short reads/writes and EAGAIN; no resets',
     'the two body octets of MSG_REJECT are read in the order the pinned tests fix',
     'after SESS_TERM an endpoint may still send ACKs and the remaining segments of a transfer already started',
-    'bundles of at most 6 octets, at most two per direction',
+    'bundles of at most 6 octets, at most two per direction (state graphs); two bundles of 48 000 octets in the adaptive-sizing enumeration',
 ]
 
 RULE = ('explicit-state BFS over two real ContactHandler objects; user send/terminate calls at every '
@@ -71,4 +77,10 @@ RULE = ('explicit-state BFS over two real ContactHandler objects; user send/term
 
 
 def evidence(tier, seed, scens, results, wall_s):
-    return graph_evidence(PROP, tier, seed, scens, results, wall_s, ASSUMPTIONS, RULE)
+    graphs = [r for r in results if r and r.get('kind') == 'graph']
+    enums = [r for r in results if r and r.get('kind') == 'enum']
+    ev = graph_evidence(PROP, tier, seed, [sc for sc in scens if sc['kind'] == 'graph'], graphs, wall_s, ASSUMPTIONS, RULE)
+    cov = ev['coverage']
+    cov['evaluations'] = sum(r.get('evaluations', 0) for r in enums)
+    cov['exhaustive'] = cov['exhaustive'] and len([r for r in results if r and r.get('kind') != 'error']) == len(results)
+    return ev
